@@ -1,5 +1,7 @@
 import WalrusVerif.Lemmas.ParseLemmas
 import WalrusVerif.Model.Engine
+import WalrusVerif.Lemmas.AEngProgress
+import WalrusVerif.Lemmas.AEngStep
 /-!
 # C03 — batch reads honour the entry cap and byte budget and always make progress
 
@@ -9,8 +11,10 @@ caller's cursor has not yet consumed, the read returns at least one entry.
 
 Model: `Eng.batchRead` (`walrus_read.rs::batch_read_for_topic`, cursor-based and offset-addressed).
 `C03_cap` and `C03_budget` are proved for **every** state, disk content, budget, flag and start
-offset (no invariant needed: they are properties of the parser for any plan).  The progress clause
-needs the engine invariant and is stated in `Props/C01.lean` (`C03_progress`).
+offset (no invariant needed: they are properties of the parser for any plan), on the storage-level
+model `Eng`.  The progress clause `C03_progress` is proved on the entry-level model `AEng` for every
+reachable state (the engine invariant `TInv`), every budget (including 0) and every cursor
+position; `C03_progress_history` restates it over histories.
 -/
 namespace WalrusVerif.Props.C03
 open WalrusVerif WalrusVerif.Eng
@@ -18,7 +22,7 @@ open WalrusVerif WalrusVerif.Eng
 /-- The result of a batch read is a list of entries obeying cap and budget — any state, any args. -/
 theorem C03_batchRead (c : Cfg) (p : Proc) (i : Inst) (t : Topic) (maxB : Nat) (cp : Bool)
     (start : Option Nat) :
-    ∃ es, (batchRead c p i t maxB cp start).2.2 = .entries es ∧
+    ∃ es, (Eng.batchRead c p i t maxB cp start).2.2 = .entries es ∧
       es.length ≤ c.cap ∧ (sumReturned es ≤ maxB ∨ es.length ≤ 1) := by
   unfold batchRead
   cases start with
@@ -78,6 +82,21 @@ theorem C03_budget (c : Cfg) (p : Proc) (i : Inst) (t : Topic) (maxB : Nat) (cp 
   · match es, hb with
     | [], _ => left; simp [sumReturned]
     | [_], _ => right; rfl
+
+/-- **C03, third clause.** In every reachable state of a topic (`TInv`), with any byte budget and
+either flag: if an entry is unconsumed, the cursor batch read returns at least one entry. -/
+theorem C03_progress (c : Cfg) (hc : AEng.CfgOK c) (n : Nat) (a : AEng.ATopic) (k : Nat) (h : AEng.TInv c n a k)
+    (maxB : Nat) (cp : Bool) (hne : k < (AEng.log a).length) : 1 ≤ (AEng.batchRead c a maxB cp).2.length :=
+  AEng.batchRead_progress c hc.meta_pos hc.cap_pos n a k h maxB cp _ (List.getElem?_eq_getElem hne)
+
+/-- … and over histories: the specification every history satisfies (`C01_refines`) demands a
+non-empty result whenever the topic has pending entries (`accepts`, clause for `bread`). -/
+theorem C03_progress_history (c : Cfg) (hc : AEng.CfgOK c) (ops : List AEng.AOp)
+    (hl : ∀ op ∈ ops, op.WithinLimits c) :
+    AEng.accepts AEng.Spec.init (ops.zip (AEng.run c ops)) :=
+  AEng.runFrom_accepts c hc ops {} (fun _ => 0) (AEng.sinv_init c) hl |> fun h => by
+    have e : AEng.specOf {} (fun _ => 0) = AEng.Spec.init := by unfold AEng.specOf AEng.Spec.init; congr 1
+    rw [e] at h; exact h
 
 /-! Non-vacuity: a concrete run in the small geometry that rotates a block and hits the cap (5). -/
 def demoOps : List Op :=
